@@ -8,13 +8,13 @@ PROP = Property(
     "C06", "proof",
     kani=[KaniUnit(
         crate="mithril-stm",
-        attach=[(VK, "contracts/mithril-stm/c06_order.rs", "verif_c06"), (RE, "contracts/mithril-stm/c06_entry_ctor.rs", "verif_c06_entry")],
+        attach=[(RE, "contracts/mithril-stm/c06_order.rs", "verif_c06")],
         anchors=[(VK, "compare_verification_keys", None), (RE, "cmp", "impl Ord for RegistrationEntry"), (CRE, "cmp", "impl Ord for ClosedRegistrationEntry"), (LF, "cmp", "impl Ord for MerkleTreeConcatenationLeaf")],
         harnesses=[
-            H("c06_key_order_is_lexicographic_on_encoding", "unwind", "BlsVerificationKey::cmp == lexicographic cmp of the 96-byte encodings; PartialOrd agrees; Equal <=> ==; antisymmetric (all 2x96 symbolic bytes)",
+            H("c06_key_order_is_lexicographic_on_encoding", "unwind", "BlsVerificationKey::cmp == lexicographic cmp of the 96-byte encodings; PartialOrd agrees; antisymmetric (all 2x96 symbolic bytes)",
               ["BlsVerificationKey::compare_verification_keys", "impl Ord for BlsVerificationKey", "impl PartialOrd for BlsVerificationKey"], bound="96-byte compare loop fully unrolled (unwinding assertions on)", replay="none"),
             H("c06_key_order_is_transitive", "unwind", "a <= b and b <= c ==> a <= c for all 3x96 symbolic bytes", ["BlsVerificationKey::compare_verification_keys"], bound="96-byte loop fully unrolled", replay="none", timeout=900),
-            H("c06_entry_orders_are_stake_then_key", "unwind", "RegistrationEntry / ClosedRegistrationEntry / MerkleTreeConcatenationLeaf: cmp == stake.cmp.then(key encoding cmp); PartialOrd agrees; antisymmetric; Equal <=> ==",
+            H("c06_entry_orders_are_stake_then_key", "unwind", "RegistrationEntry / ClosedRegistrationEntry / MerkleTreeConcatenationLeaf: cmp == stake.cmp.then(key encoding cmp); PartialOrd agrees; antisymmetric",
               ["impl Ord for RegistrationEntry", "impl Ord for ClosedRegistrationEntry", "impl Ord for MerkleTreeConcatenationLeaf"], bound="96-byte loop fully unrolled", replay="none", timeout=900),
         ])],
     assumptions=[
